@@ -62,7 +62,7 @@ func execBox(req string) string {
 var modelledBoxes = map[string]bool{}
 
 func init() {
-	for _, t := range strings.Fields("ftyp styp free skip mvhd tkhd mdhd hdlr vmhd smhd nmhd sthd stts ctts stsc stsz stco co64 stss sdtp elst mehd trex mfhd tfhd tfdt trun sidx saio saiz tenc frma pssh prft mfro btrt pasp clap cslg CoLL SmDm sbgp") {
+	for _, t := range strings.Fields("ftyp styp free skip mvhd tkhd mdhd hdlr vmhd smhd nmhd sthd stts ctts stsc stsz stco co64 stss sdtp elst mehd trex mfhd tfhd tfdt trun sidx saio saiz tenc frma pssh prft mfro btrt pasp clap cslg CoLL SmDm sbgp schm kind mime emsg leva subs payl sttg iden ctim vlab vttC vtta vsid vtte emib emeb av1C vpcC cdat iods dac3") {
 		modelledBoxes[t] = true
 	}
 }
@@ -102,7 +102,7 @@ func genBoxProps(c *Ctx, which string) {
 	perSeed := c.N(1, 6)
 	for _, sb := range seeds {
 		v := checkBoxBytes(c, which, sb.bs, sb.origin)
-		modelCase(c, sb.bs)
+		modelCase(c, which, sb.bs)
 		key := ""
 		if v.accepted {
 			key = string(sb.bs)
@@ -118,7 +118,7 @@ func genBoxProps(c *Ctx, which string) {
 		for k := 0; k < perSeed; k++ {
 			for _, m := range mutateBox(c, sb.bs) {
 				v := checkBoxBytes(c, which, m, "mutation of "+sb.origin)
-				modelCase(c, m)
+				modelCase(c, which, m)
 				key := ""
 				if v.accepted {
 					key = string(m)
@@ -341,13 +341,49 @@ func checkSizeFieldsFile(enc []byte) string {
 	return ""
 }
 
-func modelCase(c *Ctx, bs []byte) {
+func modelCase(c *Ctx, which string, bs []byte) {
 	if len(bs) < 8 || len(bs) > 4096 || !modelledBoxes[string(bs[4:8])] {
 		return
 	}
 	req := "box.rt " + hx(bs)
-	c.Case(req, boxRT(bs))
+	ans := boxRT(bs)
+	c.Case(req, ans)
 	c.Count("model." + string(bs[4:8]))
+	if which != "C03" {
+		return
+	}
+	// C03: the other three decoder x encoder combinations against the same single model function. The property
+	// constrains them on byte strings that one path reproduces exactly; there all four must give the model's answer.
+	exact := "size=" + fmt.Sprint(len(bs)) + " enc=" + hx(bs)
+	for _, p := range []struct {
+		name string
+		dec  func([]byte) pathResult
+		enc  func(mp4.Box) encResult
+	}{{"rd-sw", decReader, encSlice}, {"sr-wr", decSlice, encWriter}, {"sr-sw", decSlice, encSlice}} {
+		a := boxRTvia(bs, p.dec, p.enc)
+		if ans == exact || a == exact {
+			c.Case("box.rt@"+p.name+" "+hx(bs), a)
+			c.Count("model-path." + p.name)
+		}
+	}
+}
+
+func boxRTvia(bs []byte, dec func([]byte) pathResult, enc func(mp4.Box) encResult) string {
+	r := dec(bs)
+	if r.panic != "" {
+		return "panic"
+	}
+	if r.err != nil || r.box == nil {
+		return "rej"
+	}
+	e := enc(r.box)
+	if e.panic != "" {
+		return "panic"
+	}
+	if e.err != nil {
+		return "encfail"
+	}
+	return fmt.Sprintf("size=%d enc=%s", r.box.Size(), hx(e.out))
 }
 
 // genMixedProtection: init + multi-track fragments where a random subset of the tracks is protected (cenc / cbcs,
